@@ -37,33 +37,57 @@ theorem C13_tie_callsites :
     Gen.calls_ls_SyncOngoing = ["StreamLogs", "HandleBlockEventsStream"] ∧
     Gen.calls_ls_setupEventHandling = ["SyncHistory", "SyncOngoing"] := by decide
 
-/-- source fingerprints of the functions modelled line by line. They pin what no constant or call list can:
-    `fromBlock = nextBlock` and `tries > 2` in StreamLogs, `fromBlock = block.BlockNumber + 1` and the returned
-    cursor on every path of streamLogsToChan, the empty-batch marker `BlockLogs{BlockNumber: toBlock}` and the
-    removed-log filter in fetchLogsInBatches, the sort key of PackLogs, the checks of SyncHistory and the
-    hand-over `lastProcessedBlock + 1` in setupEventHandling. -/
-theorem C13_tie_sources :
-    Gen.src_ls_StreamLogs = "f7c1b79edd4001f9" ∧
-    Gen.src_ls_streamLogsToChan = "5de569c03d2041ba" ∧
-    Gen.src_ls_fetchLogsInBatches = "10a91a9a513bf5b3" ∧
-    Gen.src_ls_FetchHistoricalLogs = "b0e95d90be5aa00f" ∧
-    Gen.src_ls_PackLogs = "d0dfac6cc82c20f9" ∧
-    Gen.src_ls_SyncHistory = "8185784c18fe0af4" ∧
-    Gen.src_ls_SyncOngoing = "b7915e5dcda70dc6" ∧
-    Gen.src_ls_setupEventHandling = "1b3d73e434bd2a70" := by decide
-
 /-- numeric literals and operators (log/error message strings are not among them) -/
-def opTokens : List String := ["0", "1", "2", "3", "u<-", "||", "&&", "==", "!=", "++", "--", ">", "<", ">=", "<=", "-", "+", "+=", "-="]
+def opTokens : List String := ["0", "1", "2", "3", "100", "u<-", "||", "&&", "==", "!=", "++", "--", ">", "<", ">=", "<=",
+  "-", "+", "*", "/", "%", "+=", "-=", "*=", "/=", "<<", ">>"]
 
-/-- literals and operators of StreamLogs / streamLogsToChan (message strings dropped): the retry bound is the
-    literal `2` compared with `>` right after `tries++`; streamLogsToChan advances by `+ 1` twice
-    (`block.BlockNumber + 1`, `toBlock + 1`) and subtracts the follow distance once -/
-theorem C13_tie_literals :
+def allTrue (l : List Bool) : Bool := l.all id
+
+/-- The statements the model of `StreamLogs` relies on occur in its body: the returned cursor is bound to
+    `nextBlock`, the retry counter is incremented and compared with the literal 2 BEFORE the progress test
+    `nextBlock > fromBlock` resets it, the client reconnects and continues from exactly `nextBlock`. -/
+theorem C13_tie_StreamLogs :
+    Gen.has_ls_StreamLogs.length = 10 ∧ allTrue Gen.has_ls_StreamLogs = true ∧
     Gen.lits_ls_StreamLogs.filter (fun s => decide (s ∈ opTokens))
       = ["0", "u<-", "u<-", "||", "==", "++", ">", "2", ">", "0"] ∧
-    Gen.lits_ls_streamLogsToChan.filter (fun s => decide (s ∈ opTokens))
-      = ["!=", "u<-", "u<-", "u<-", "==", "u<-", "<", "-", "<", "+", "1", "u<-", "!=", "+", "1"] ∧
     maxTries = 2 := by decide
+
+/-- `streamLogsToChan`: every `return` statement the model knows yields `fromBlock` (subscribe failure, context
+    done, closed, subscription error, fetch error), heads below the follow distance or below the cursor are skipped,
+    the cursor advances by `block.BlockNumber + 1` per forwarded entry and to `toBlock + 1` after a complete fetch;
+    its operators are exactly these (no further arithmetic on the cursor). -/
+theorem C13_tie_streamLogsToChan :
+    Gen.has_ls_streamLogsToChan.length = 16 ∧ allTrue Gen.has_ls_streamLogsToChan = true ∧
+    Gen.lits_ls_streamLogsToChan.filter (fun s => decide (s ∈ opTokens))
+      = ["!=", "u<-", "u<-", "u<-", "==", "u<-", "<", "-", "<", "+", "1", "u<-", "!=", "+", "1"] := by decide
+
+/-- `fetchLogsInBatches`: loop header `fromBlock := startBlock; …; fromBlock += ec.logBatchSize`, the `toBlock`
+    clamp, the FilterLogs range `[fromBlock, toBlock]`, error ⇒ `errors <- err`, removed-log filter, the empty-batch
+    marker `BlockLogs{BlockNumber: toBlock}`, `PackLogs` otherwise; and its operator list is exactly the known one
+    (a retry/resize of the batch would add operators or change the post statement). -/
+theorem C13_tie_fetchLogsInBatches :
+    Gen.has_ls_fetchLogsInBatches.length = 22 ∧ allTrue Gen.has_ls_fetchLogsInBatches = true ∧
+    Gen.lits_ls_fetchLogsInBatches.filter (fun s => decide (s ∈ opTokens))
+      = ["1", ">", "<=", "+=", "-", "+", "1", ">", "!=", "*", "/", "+", "-", "1", "+", "-", "1", "100", "u<-", "u<-", "0", "==", "0"] := by
+  decide
+
+/-- `FetchHistoricalLogs` (head − follow, the two nothing-to-sync tests, same batch loop) and `PackLogs`
+    (sort key (BlockNumber, TxIndex), new entry when the block number changes, append otherwise) -/
+theorem C13_tie_historical_pack :
+    Gen.has_ls_FetchHistoricalLogs.length = 6 ∧ allTrue Gen.has_ls_FetchHistoricalLogs = true ∧
+    Gen.lits_ls_FetchHistoricalLogs.filter (fun s => decide (s ∈ opTokens)) = ["!=", "<", "-", "<"] ∧
+    Gen.has_ls_PackLogs.length = 7 ∧ allTrue Gen.has_ls_PackLogs = true ∧
+    Gen.lits_ls_PackLogs.filter (fun s => decide (s ∈ opTokens))
+      = ["==", "<", "<", "||", "==", "0", "!=", "-", "1", "-", "1", "-", "1"] := by decide
+
+/-- the syncer, the node's hand-over (`SyncOngoing` from `lastProcessedBlock + 1`; unchanged `fromBlock` when there
+    was nothing to sync; start at stored block + 1) and the handler's monotonicity check -/
+theorem C13_tie_syncer_handover :
+    Gen.has_ls_SyncHistory.length = 8 ∧ allTrue Gen.has_ls_SyncHistory = true ∧
+    Gen.has_ls_SyncOngoing.length = 3 ∧ allTrue Gen.has_ls_SyncOngoing = true ∧
+    Gen.has_ls_setupEventHandling.length = 6 ∧ allTrue Gen.has_ls_setupEventHandling = true ∧
+    Gen.has_ls_HandleBlockEventsStream.length = 2 ∧ allTrue Gen.has_ls_HandleBlockEventsStream = true ∧
+    Gen.has_ls_processBlockEvents.length = 3 ∧ allTrue Gen.has_ls_processBlockEvents = true := by decide
 
 /-! ## the property, stated once for any stream implementation -/
 
